@@ -20,7 +20,7 @@ EXHAUSTIVE_NOTE = G.EXHAUSTIVE_NOTE
 ASSUMPTIONS = G.ASSUMPTIONS
 TRUSTED = G.TRUSTED
 ALLOWED_AXIOMS = []
-LEVEL_TEXT = ('proof (partial): no_lost_wakeup, owner_can_finish, prompt, rescue_within_60, no_deadlock, retry_measure, ok_C05_sound + 4 converse theorems proved for all event '
+LEVEL_TEXT = ('proof (partial): no_lost_wakeup, owner_can_finish, prompt, rescue_within_60, no_deadlock, retry_measure, bounded_work, maximal_trace_done_or_timer / _all_done, ok_C05_sound + 4 converse theorems proved for all event '
               'lists accepted by the model Cache.step (invariants CacheInv.Inv + CacheLive.LInv); termination under fair '
               'scheduling is reduced to these and the last inference is left on paper; model tied to the code by '
               'differential correspondence, promptness / rescue / no-hang decided on every observed trace by ok_C05')
@@ -29,8 +29,8 @@ LEVEL_NOTE = ('Proved (closed under the global context): a waiter never waits fo
               'event is set every waiter\'s resume step is enabled and the clock cannot move first (same virtual tick, not '
               '+60 s); a wait lasts at most 61440 ticks, the clock cannot jump over the deadline, the time-out step is enabled '
               'and a caller that then finds a dead computing loop takes the key over; while a call on a live loop is unfinished '
-              'some non-life-cycle step is enabled.  NOT formalised: "a fair scheduler eventually takes a step that stays '
-              'enabled" (so "enabled" becomes "eventually happens"), the property\'s assumption that each invocation ends or '
+              'some non-life-cycle step is enabled.  NOT formalised: "a fair scheduler and a running clock produce a maximal trace" '
+              '(so "enabled" becomes "eventually happens" and maximal_trace_* applies), the property\'s assumption that each invocation ends or '
               'is cancelled (IEnd is an environment event).  retry_measure (CacheRetry.v, ghost counters computed along the run): '
               'retries of a caller <= ended invocations + its proxy results + closed loops + its time-outs, time-outs * 61440 <= now.  Converse theorems ok_C05_implies_ends_with_End0 / '
               '_shutdown_answers / _prompt / _rescue (CacheMon5Spec.v) read the property off an accepted trace alone.  ok_C05_sound (CacheMon5.v): every '
